@@ -198,9 +198,13 @@ func (p *Property) pick(run uint64) *Scenario {
 	for _, s := range p.Scenarios {
 		total += s.Weight
 	}
-	// deterministic round-robin-by-weight on the run index so that every
-	// scenario is covered even in tiny batches
-	v := int((run * 2654435761) % uint64(total))
+	// a fixed hash of the run index (not of the seed: a run index means the same
+	// scenario under every seed). It must not correlate with the worker stride,
+	// or some workers get only the expensive scenarios and hit the budget.
+	z := run + 0x9E3779B97F4A7C15
+	z = (z ^ (z >> 30)) * 0xBF58476D1CE4E5B9
+	z = (z ^ (z >> 27)) * 0x94D049BB133111EB
+	v := int((z ^ (z >> 31)) % uint64(total))
 	for i := range p.Scenarios {
 		if v < p.Scenarios[i].Weight {
 			return &p.Scenarios[i]
